@@ -258,7 +258,7 @@ Section MapLevel.
       inversion Hnegs as [|? ? Hgn Hrest]; subst.
       destruct (forall_res _ (all_keys pos neg)) as [[|]|e] eqn:Ef; cbn [bind negb] in H; try discriminate.
       { (* every key dimension is covered: the answer is never "not empty" *)
-        destruct (index_dimension_is_covered is_empty) as [[|]|e]; cbn [bind] in H; discriminate. }
+        destruct (index_dimension_is_covered is_empty _) as [[|]|e]; cbn [bind] in H; discriminate. }
       apply forall_res_false_inv in Ef. destruct Ef as [k [Hin Hb]]. cbn beta in Hb.
       destruct (sem_diff (get_exact pos k) (get_open neg k)) as [diff|e] eqn:Ed; cbn [bind] in Hb; [|discriminate].
       assert (Hgo : good (get_open neg k)) by (apply good_get_open; exact Hgn).
